@@ -291,6 +291,53 @@ fn replay(args: &Args) -> i32 {
 				}
 			}
 		}
+		// Pruning marks live outside the forest: root and proof paths are functions of the construction
+		// only (MMR.tla: RootTerm / ProofPathD never look at removals), so removing leaves must leave the
+		// root and the proofs of the remaining leaves unchanged (hashes of removed leaves are retained).
+		let patterns: Vec<(&str, Vec<usize>)> = vec![
+			("last", vec![lpos.len() - 1]),
+			("first", vec![0]),
+			("even", (0..lpos.len()).step_by(2).collect()),
+			("all_but_first", (1..lpos.len()).collect()),
+		];
+		for (pname, rm) in patterns {
+			let mut bb = VecBackend::<Elem>::new();
+			let mut sz = 0;
+			for i in 0..nl {
+				let mut p = PMMR::at(&mut bb, sz);
+				p.push(&Elem::of(i)).unwrap();
+				sz = p.unpruned_size();
+			}
+			{
+				let mut p = PMMR::at(&mut bb, sz);
+				for i in &rm {
+					let _ = p.prune(lpos[*i]);
+				}
+			}
+			let p = PMMR::at(&mut bb, sz);
+			nchecks += 1;
+			match std::panic::catch_unwind(std::panic::AssertUnwindSafe(|| p.root())) {
+				Ok(Ok(r)) if r == root_spec => {}
+				_ => mism.push(json!({"what":"root_after_prune","pattern":pname,"nl":nl})),
+			}
+			for (i, pr) in c["proofs"].as_array().unwrap().iter().enumerate() {
+				if rm.contains(&i) {
+					continue;
+				}
+				let pos = pr["pos"].as_u64().unwrap();
+				let path_spec: Vec<Hash> = pr["path"].as_array().unwrap().iter().map(|t| eval_term(t, &elem_leaf)).collect();
+				nchecks += 1;
+				match std::panic::catch_unwind(std::panic::AssertUnwindSafe(|| p.merkle_proof(pos))) {
+					Ok(Ok(x)) => {
+						if x.path != path_spec {
+							mism.push(json!({"what":"proof_path_after_prune","pattern":pname,"pos":pos,"nl":nl}));
+						}
+					}
+					Ok(Err(e)) => mism.push(json!({"what":"merkle_proof_err_after_prune","pattern":pname,"pos":pos,"nl":nl,"err":e})),
+					Err(_) => mism.push(json!({"what":"merkle_proof_panic_after_prune","pattern":pname,"pos":pos,"nl":nl})),
+				}
+			}
+		}
 		out.put(&json!({"nl":nl,"size":size,"checks":nchecks,"mismatches":mism}));
 	}
 	out.finish();
